@@ -318,6 +318,30 @@ theorem unbounded_original (hW : WF lm) (hs : standardize lm = .ok s) (hT : Cano
     simp only [hflip, hmax, decide_true, if_true] at hlt ⊢
     linarith
 
+/-- **phase 1 below zero ⇒ the ORIGINAL model is infeasible** (exact comparisons): C13 `fwd` + `std_shape` composed
+with C14 `phase1_feasible_value_bound` at `tol = 0`.  (`into_tableau_two_phase` reports `Infesible` when the phase-1
+optimum is not within the tolerance of `0`; at exact arithmetic a phase-1 optimum `< 0` — the artificial variables cannot
+be driven to zero — excludes every feasible point of `lm`.) -/
+theorem phase1_negative_infeasible (hW : WF lm) (hs : standardize lm = .ok s) (se limit : Nat) (prefer : List Nat)
+    (hok : (solve (0:K) se limit prefer (phase1Tab (stdK s))).result = .ok ())
+    (hneg : (solve (0:K) se limit prefer (phase1Tab (stdK s))).final.value < 0) : ¬ ∃ x, LinFeasible lm x := by
+  rintro ⟨x, hx⟩
+  obtain ⟨hrect, _, _⟩ := Props.C13.std_shape lm hW hs
+  have hrows : ∀ r ∈ (stdK s).rows, r.coeffs.length = (stdK s).vars.length := by
+    intro r hr
+    simp only [stdK, List.mem_map] at hr
+    obtain ⟨r0, hr0, rfl⟩ := hr
+    simpa using hrect r0 hr0
+  obtain ⟨hxF, _⟩ := Props.C13.fwd lm hW hs x hx
+  obtain ⟨hxl, hxn, hxS⟩ := (stdFeasible_iff s _).mp hxF
+  have hS : ∀ i, i < (stdK s).rows.length →
+      dot (row ((stdK s).rows.map (·.coeffs)) i) (image lm x) = nth ((stdK s).rows.map (·.rhs)) i := by
+    intro i hi
+    exact hxS i (by simpa [Start.stdTab] using hi)
+  have := Props.C14.phase1_feasible_value_bound (le_refl (0:K)) (stdK s) hrows se limit prefer hok (image lm x) hxl hS hxn
+  simp only [zero_mul, neg_nonpos] at this
+  exact absurd hneg (not_lt.mpr this)
+
 end
 
 end Rooc.ComposeSimplex
